@@ -181,7 +181,8 @@ def canon(roots, solver, pc_fn=None):
         d = getattr(o, '__dict__', None)
         if d is None: out.append(type(o).__name__); return
         out.append('<' + type(o).__name__)
-        for k in sorted(d):
+        cf = getattr(o, 'canon_fields', None)
+        for k in (sorted(d) if cf is None else cf):
             if k.startswith('_') or callable(d[k]): continue
             out.append(k); walk(d[k])
         out.append('>')
@@ -263,6 +264,23 @@ def explore_levels(mk, body, levels, nproc=None, wall_cap=None, seed=0):
         for lvl in range(1, levels + 1):
             tasks = [(p, lvl) for p in frontier]
             nxt = {}
+            if len(tasks) < 2 * nproc:
+                # few states: split their one-step expansions into independent decision prefixes first
+                pre = Acc(); pre.frontier = {}
+                pend = [t[0] for t in tasks]; budget = 40 * nproc
+                while pend and len(pend) < 6 * nproc and budget > 0:
+                    dec = pend.pop(0); budget -= 1
+                    ex = mk(); ex.decisions = list(dec); ex.stop_at = lvl
+                    try: body(ex, pre)
+                    except (Abort, StopAtBoundary): pass
+                    except Unknown as u: pre.unknown.append(str(u)[:300])
+                    pre.paths += 1; pre.steps += ex.steps; pre.queries += ex.nq; pre.solver_s += ex.tsolve; pre.fn_used |= ex.fn_used
+                    pend.extend(ex.pending)
+                total.merge(pre)
+                for sig, dec in pre.frontier.items():
+                    if sig in seen: continue
+                    if sig not in nxt or (len(dec), dec) < (len(nxt[sig]), nxt[sig]): nxt[sig] = dec
+                tasks = [(p, lvl) for p in pend]
             it = pool.imap_unordered(_run_level_task, tasks, chunksize=1) if len(tasks) > 1 else map(_run_level_task, tasks)
             for a in it:
                 total.merge(a)
